@@ -49,7 +49,7 @@ pub fn op_strategy() -> impl Strategy<Value = Op> {
     ]
 }
 
-fn case_strategy(min_lg: u8, max_lg: u8, max_ops: usize) -> impl Strategy<Value = Case> {
+pub fn case_strategy(min_lg: u8, max_lg: u8, max_ops: usize) -> impl Strategy<Value = Case> {
     (min_lg..=max_lg, seed_strategy(), proptest::collection::vec(op_strategy(), 1..max_ops))
         .prop_map(|(lg_k, seed, ops)| Case { lg_k, seed, ops })
 }
@@ -208,7 +208,7 @@ pub fn check_state(sk: &CpcSketch, m: &CpcModel, full: bool, ctx: &str) -> Resul
     Ok(())
 }
 
-fn run_case(c: &Case, info: &mut CaseInfo) -> Result<(), Fail> {
+pub fn run_case(c: &Case, info: &mut CaseInfo) -> Result<(), Fail> {
     let lg_k = c.lg_k;
     let mut sk = CpcSketch::with_seed(lg_k, c.seed);
     let mut m = CpcModel::new(lg_k);
